@@ -200,6 +200,7 @@ func sessExec(tr *vh.Transcript, ops []string) {
 	}
 	for _, op := range ops {
 		f := strings.Fields(op)
+		tr.Note("doing %s", op) // so that the op of a crash is on record
 		if s != nil {
 			// every event happens 1 ms after the previous one (distinct activity times)
 			time.Sleep(time.Millisecond)
